@@ -22,6 +22,8 @@ impl<'a> Pipe<'a> {
     /// then vertical) and the integer coefficients in the order the passes run.
     pub fn inject<P: PixelTrait>(&self) {
         verif_api::clear_injected();
+        // any pass beyond the injected ones is an unexpected resampling pass
+        verif_api::set_strict(true);
         if let Some(h) = &self.h {
             verif_api::inject_coefficients(self.h_ws, h.bounds);
         }
